@@ -340,7 +340,7 @@ type pRec struct {
 func ExploreProduct(sp *ProductSpec, tier string, deadline time.Duration, maxStates int) *Result {
 	start := time.Now()
 	debug.SetGCPercent(-1)
-	debug.SetMemoryLimit(8 << 30)
+	debug.SetMemoryLimit(3 << 30)
 	runtime.GOMAXPROCS(1)
 	res := &Result{Universe: "product/" + sp.Name, Property: "C12"}
 	st := &res.Stats
